@@ -244,6 +244,8 @@ Case generate(vf::Src& src, const std::string& mode)
     int n = ex ? std::atoi(mode.c_str() + 3) : src.irange(1, 40);
     for (int i = 0; i < n; ++i)
     {
+        if (!ex && src.skip())
+            continue; // lets the shrinker drop operations
         Op op;
         if (c.mode == "q")
         {
